@@ -408,6 +408,9 @@ func (s *SMT) header(logicOpts string) string {
 	for _, p := range s.preludes {
 		sb.WriteString(p + "\n")
 	}
+	for _, sc := range s.strConsts() {
+		s.strLit(sc[1]) // make sure the literal exists before the literal section
+	}
 	// string literals
 	if len(s.strOrder) > 0 {
 		var names []string
@@ -436,8 +439,32 @@ func (s *SMT) header(logicOpts string) string {
 
 // literalHooks: concrete facts about string literals for predicates declared by
 // the loaded preludes (a prelude opts in with a line "; @literal <pred>").
+// strConsts: named string constants a prelude declares ("; @strconst NAME "value"");
+// each is tied to the engine's literal of that value.
+func (s *SMT) strConsts() [][2]string {
+	var out [][2]string
+	for _, p := range s.preludes {
+		for _, ln := range strings.Split(p, "\n") {
+			ln = strings.TrimSpace(ln)
+			if strings.HasPrefix(ln, "; @strconst ") {
+				fs := strings.SplitN(strings.TrimPrefix(ln, "; @strconst "), " ", 2)
+				if len(fs) == 2 {
+					var v string
+					if _, err := fmt.Sscanf(fs[1], "%q", &v); err == nil {
+						out = append(out, [2]string{fs[0], v})
+					}
+				}
+			}
+		}
+	}
+	return out
+}
+
 func (s *SMT) literalHooks() []string {
 	var out []string
+	for _, sc := range s.strConsts() {
+		out = append(out, fmt.Sprintf("(assert (= %s %s))", sc[0], s.strLit(sc[1])))
+	}
 	want := map[string]bool{"nozero": true}
 	for _, p := range s.preludes {
 		for _, ln := range strings.Split(p, "\n") {
